@@ -348,4 +348,4 @@ func raceExcerpt(out string) string {
 var needsOpenAPI = map[string]bool{"c06": true}
 
 // needsTS lists inner checks that load emitted TypeScript modules.
-var needsTS = map[string]bool{"c08": true, "c07": true, "c03": true, "c09ts": true, "c02ts": true, "c10ts": true, "c11ts": true}
+var needsTS = map[string]bool{"c08": true, "c07": true, "c03": true, "c09ts": true, "c02ts": true, "c10ts": true, "c11ts": true, "c10tssrv": true}
